@@ -1,6 +1,8 @@
 package c18
 
 import (
+	"fmt"
+	"sync/atomic"
 	"testing"
 	"time"
 
@@ -70,5 +72,58 @@ func TestRegressionShutdownWakesAllWorkers(t *testing.T) {
 		default:
 			t.Fatalf("pending task was not executed before Shutdown() returned (trial %d)", i)
 		}
+	}
+}
+
+// A re-scheduling that is refused after a (graceful) shutdown cancelled the pending task of the identifier: it was
+// silently lost. (Fixed in /repo: the replacement happens together with the insertion.)
+func TestRegressionRefusedRescheduleKeepsPendingTask(t *testing.T) {
+	for i := 0; i < 5; i++ {
+		runExecutorScript(t, checkRegression, true, 1, []op{
+			{Kind: "at", D: 40, ID: "a"},
+			{Kind: "shutdown", Flags: fNoWait},
+			{Kind: "at", D: 10, ID: "a"},
+		})
+	}
+}
+
+// Cancel(id) returned true for a task that the size bound / Shutdown(CancelPendingElements) had dropped long before.
+func TestRegressionCancelOfDroppedTaskIsFalse(t *testing.T) {
+	fatal := func(format string, a ...any) {
+		stats.Violation(checkRegression, map[string]any{"failure": fmt.Sprintf(format, a...)})
+		t.Fatalf(format, a...)
+	}
+	te := timed.NewTaskExecutor[int](1)
+	te.ExecuteAt(1, func() {}, time.Now().Add(time.Hour))
+	time.Sleep(2 * time.Millisecond) // the worker takes the first task and waits for its time
+	te.ExecuteAt(2, func() {}, time.Now().Add(2*time.Hour))
+	if !ctl.WithinHang(func() { te.Shutdown(timed.CancelPendingElements) }) {
+		fatal("Shutdown(CancelPendingElements) did not return\n%s", ctl.Dump())
+	}
+	for id := 1; id <= 2; id++ {
+		if te.Cancel(id) {
+			fatal("Cancel(%d) returned true after Shutdown(CancelPendingElements) had returned", id)
+		}
+	}
+
+	var ran [3]atomic.Int32
+	be := timed.NewTaskExecutor[int](1, timed.WithMaxQueueSize(1))
+	be.ExecuteAt(0, func() { ran[0].Add(1) }, time.Now().Add(20*time.Millisecond))
+	if !awaitFlag(func() bool { return be.Size() == 0 }, 15*time.Millisecond) {
+		be.Shutdown(timed.CancelPendingElements)
+		t.Skip("the worker did not take the first task in time")
+	}
+	be.ExecuteAt(1, func() { ran[1].Add(1) }, time.Now().Add(60*time.Millisecond))
+	be.ExecuteAt(2, func() { ran[2].Add(1) }, time.Now().Add(40*time.Millisecond))
+	if !ctl.WithinHang(func() { be.Shutdown() }) {
+		fatal("Shutdown did not return\n%s", ctl.Dump())
+	}
+	for id := 0; id <= 2; id++ {
+		if be.Cancel(id) {
+			fatal("bound 1: Cancel(%d) returned true after the waiting Shutdown (callback ran %d times)", id, ran[id].Load())
+		}
+	}
+	if got := ran[0].Load() + ran[1].Load() + ran[2].Load(); got != 2 {
+		fatal("bound 1: %d callbacks ran, want 2 (one of three was dropped by the bound)", got)
 	}
 }
